@@ -58,6 +58,7 @@ def check(model: Model, report: Report) -> None:
         "L11": "lexer state transitions and bracket / function-call bookkeeping per generic iteration (what scans what follows each lexeme, when a filter ends, how parentheses of calls and groups are matched)",
         "S": "every query made of name / index segments only (any index, any name) is recognised as singular, so that it may be compared and passed as a ValueType argument",
         "L10": "function arguments may start with every token a filter expression may start with",
+        "L12": "every RFC function name followed by '(' reaches the lexer arm that emits FUNCTION: no earlier test of the ladder (a keyword accepted by prefix, a number pattern) takes such a text away",
     }.items():
         report.rule(f"R03.{k}", v)
     report.assumptions += ["A1: stdlib re semantics for the constructs used (classes, ranges, greedy repeats, alternation); int()/float() literal domains"]
@@ -66,6 +67,7 @@ def check(model: Model, report: Report) -> None:
     _lexstates.check_token_tables(model, report, "R03.L7", "b-only")
     _lexstates.check_blank_positions(model, report, "R03.L9", "b-only")
     _lexstates.check_transitions(model, report, "R03.L11")
+    _lexstates.check_function_dispatch(model, report, "R03.L12")
     check_argument_prefixes(model, report, "R03.L10")
     from .c05 import check_singular
 
